@@ -179,11 +179,11 @@ fn set_algebra<S: Src>(s: &mut S) {
     let (reg, qreg) = (mk::reg(r), mk::reg(q));
     let sa = set_from_mask(a);
     let sb = set_from_mask(b);
-    assert!(sa.contains(&reg) == bit(a, r), "[C14] contains/set_register disagree with the bit mask");
+    assert!(sa.contains(&reg) == bit(a, r), "[C14,C01] contains/set_register disagree with the bit mask");
     assert!(sa.is_empty() == (a == 0), "[C14] is_empty");
     assert!((sa | sb).contains(&reg) == bit(a | b, r), "[C14] union");
     assert!((sa & sb).contains(&reg) == bit(a & b, r), "[C14] intersection");
-    assert!((sa - sb).contains(&reg) == bit(a & !b, r), "[C14] difference");
+    assert!((sa - sb).contains(&reg) == bit(a & !b, r), "[C14,C01] difference");
     assert!((sa | qreg).contains(&reg) == (bit(a, r) || r == q), "[C14] union with a register");
     assert!((sa & qreg).contains(&reg) == (bit(a, r) && r == q), "[C14] intersection with a register");
     assert!((sa - qreg).contains(&reg) == (bit(a, r) && r != q), "[C14] difference with a register");
@@ -195,7 +195,7 @@ fn set_algebra<S: Src>(s: &mut S) {
     assert!(m == (sa & sb), "[C14] &= differs from &");
     let mut m = sa;
     m -= sb;
-    assert!(m == (sa - sb), "[C14] -= differs from -");
+    assert!(m == (sa - sb), "[C14,C01] -= differs from -");
     let mut m = sa;
     m |= qreg;
     assert!(m == (sa | qreg), "[C14] |= register");
@@ -226,7 +226,7 @@ fn set_iter<S: Src>(s: &mut S) {
     while k < 3 {
         let got = it.next().map(Register::to_num);
         let want = if rest == 0 { None } else { Some(rest.trailing_zeros() as u8) };
-        assert!(got == want, "[C14] RegisterSet iteration does not yield the members in ascending order");
+        assert!(got == want, "[C14,C01] RegisterSet iteration does not yield the members in ascending order");
         if let Some(n) = want {
             rest &= !(1u32 << n);
         }
